@@ -129,6 +129,8 @@ def run(tier, seed):
     chk.add_bounded("backend lookups for an unknown tensor type (each checks for newly imported frameworks) in two threads while a third thread inserts / removes sys.modules entries", f"{3 if tier == 'quick' else 60} s free-running", n_calls, n_calls, failures=errs[:2], note="schedule not controlled: a stress run, complements rule C10.S.foreign_dicts")
     ok, sites, failing = frame.rule_lock()
     chk.add_rule("C10.S.lock", ok, sites, failing)
+    ok, sites, failing = frame.rule_lock_reads()
+    chk.add_rule("C10.S.lock_reads", ok, sites, failing, detail="the registry's public methods have one path: lock, delegate to BackendRegistryState, publish - no lock-free or memo-first shortcut")
     ok, sites, failing = frame.rule_snapshot()
     chk.add_rule("C10.S.snapshot", ok, sites, failing)
     ok, sites, failing = frame.rule_tls(TLS)
